@@ -212,3 +212,18 @@ fn f18a_async_late_drop_orphan() {
         assert!(f.exists().await.unwrap() && !root.join("d").unwrap().exists().await.unwrap(), "no orphan");
     });
 }
+
+/// C08 R08.6 (F28): reading a file that the overlay serves from a lower MemoryFS layer re-times that layer's entry
+/// (MemoryFS::open_file bumps the access time of what it opens).
+#[test]
+fn f28_overlay_read_retimes_lower_memory_layer() {
+    let lower: VfsPath = MemoryFS::new().into();
+    let upper: VfsPath = MemoryFS::new().into();
+    let f = lower.join("f").unwrap();
+    f.create_file().unwrap().write_all(b"x").unwrap();
+    let stamp = std::time::SystemTime::UNIX_EPOCH + std::time::Duration::from_secs(1_000);
+    f.set_access_time(stamp).unwrap();
+    let ov: VfsPath = OverlayFS::new(&[upper, lower.clone()]).into();
+    let _ = ov.join("f").unwrap().read_to_string().unwrap();
+    assert_ne!(f.metadata().unwrap().accessed, Some(stamp), "lower layer not re-timed");
+}
